@@ -220,14 +220,15 @@ let cmds : cmd list ref = ref []             (* reversed *)
 let mst : store ref = ref []                 (* model state *)
 let prev_dump = ref "" and prev_resp = ref "" and prev_cmd = ref ""
 let seq_bad = ref false and seq_nontrivial = ref false and seq_disc = ref true
-let reported = ref 0
+let reported = ref 0 and reported_pf = ref 0
 
 let seq_pf = ref false
 let report kind what detail =
   (* at most one MISMATCH and one PROPFAIL line per sequence *)
   let flag = if kind = "PROPFAIL" then seq_pf else seq_bad in
-  if not !flag && !reported < 60 then begin
-    incr reported;
+  let cnt = if kind = "PROPFAIL" then reported_pf else reported in     (* separate caps: 60 lines of each kind *)
+  if not !flag && !cnt < 60 then begin
+    incr cnt;
     Printf.printf "%s\t%s\t%s\t%d\t%s\t%s\n" kind !sid !sclass (List.length !cmds_txt - 1) what detail;
     Printf.printf "SEQ\t%s\t%s\n" !sid (String.concat "\t" (List.rev !cmds_txt))
   end;
